@@ -151,9 +151,13 @@ def render(frag, name, rng=None, noise_p=0.0, renamed=False, shift=0, ind=0):
         if ind > 0:
             params = "self, " + params
         out.append("%sdef %s(%s):" % (pad, name, params))
+        if frag.get("doc"):
+            out.append('%s    """%s"""' % (pad, frag["doc"]))
         render_block(frag["body"], ind + 1, names, shift, noise, out)
     else:
         out.append("%sclass %s:" % (pad, name))
+        if frag.get("doc"):
+            out.append('%s    """%s"""' % (pad, frag["doc"]))
         for k, m in enumerate(frag["methods"]):
             out += render(m, ("werk%d" if renamed else "method%d") % k, rng, noise_p, renamed, shift, ind + 1)
             out.append("")
@@ -164,30 +168,70 @@ def render(frag, name, rng=None, noise_p=0.0, renamed=False, shift=0, ind=0):
 
 PLACES = ["same_file", "other_file", "other_dir"]
 
+# Where a copy may stand: at the top level or nested in a compound statement.  Fragment extraction
+# (extractFragmentsRecursive) walks Children, Body and Orelse only.
+WRAPS = {
+    "except": ["try:", "    import fastpath", "except ImportError:"],
+    "finally": ["try:", "    import fastpath", "finally:"],
+    "tryelse": ["try:", "    import fastpath", "except ImportError:", "    pass", "else:"],
+    "trybody": None,   # try: <copy> / except ImportError: pass
+    "with": ["with guard():"],
+    "ifelse": ["if os.name == 'nt':", "    pass", "else:"],
+}
+HANDLER_WRAPS = ("except", "finally")
 
-def gen_project(rng, n_bases=3, heavy_noise_p=0.25, max_items=9, twins_p=0.5):
-    """A project: dict path -> text, plus the list of intended verbatim groups (by item name)."""
+
+def wrap_lines(lines, wrap):
+    """(header lines, indented lines, trailer lines) of a fragment nested in the compound statement `wrap`."""
+    body = [("    " + l if l.strip() else l) for l in lines]
+    if wrap == "trybody":
+        return ["try:"], body, ["except ImportError:", "    pass"]
+    return list(WRAPS[wrap]), body, []
+
+
+def side_rng(rng):
+    """A second generator derived from the state of `rng` WITHOUT drawing from it: additions to a generator use it so that the
+    inputs an unchanged part produces for a given VERIF_SEED stay what they were."""
+    import random
+    return random.Random(hash(rng.getstate()) & 0xFFFFFFFFFFFF)
+
+
+def gen_project(rng, n_bases=3, heavy_noise_p=0.25, max_items=9, twins_p=0.5, wrap_p=0.0, force_wrap=None, doc_p=0.0, docedit_p=0.0):
+    """A project: dict path -> text, plus the list of intended verbatim groups (by item name).
+    Extras (drawn from side_rng, appended after everything else): doc_p = probability that a base fragment carries a docstring
+    (its copies keep it), docedit_p = probability of one more copy of such a function that differs in the docstring text only;
+    wrap_p = probability of a small extra function with a verbatim copy nested in a compound statement (WRAPS); force_wrap = that,
+    in the given placement, for sure."""
+    side = side_rng(rng)
     g = FragGen(rng)
     files = {"main.py": [], "util.py": [], "pkg/core.py": [], "pkg/sub/deep.py": []}
     order = list(files)
     items = []   # (name, path, relation, base)
     counter = [0]
 
-    def place(frag, path, relation, base, **kw):
+    def place(frag, path, relation, base, wrap=None, noise_rng=None, **kw):
         counter[0] += 1
         name = ("Klasse%d" if frag["kind"] == "class" else "func%d") % counter[0]
-        if relation == "verbatim":      # a verbatim copy keeps the name
+        if relation in ("verbatim", "docedit"):      # a verbatim copy keeps the name
             name = [it["name"] for it in items if it["base"] == base and it["relation"] == "base"][0]
-        lines = render(frag, name, rng, **kw)
-        start = len(files[path]) + 3   # two header lines, 1-based
-        files[path] += lines + ["", ""]
-        items.append({"name": name, "path": path, "relation": relation, "base": base, "kind": frag["kind"], "start": start})
+        lines = render(frag, name, noise_rng or rng, **kw)
+        head, tail = [], []
+        if wrap:
+            head, lines, tail = wrap_lines(lines, wrap)
+        start = len(files[path]) + 3 + len(head)   # two header lines, 1-based
+        files[path] += head + lines + tail + ["", ""]
+        items.append({"name": name, "path": path, "relation": relation, "base": base, "kind": frag["kind"], "start": start, "wrap": wrap,
+                      "doc": frag.get("doc")})
 
+    base_frags = {}
     for b in range(n_bases):
         if len(items) >= max_items:
             break
         frag = g.klass() if rng.random() < 0.25 else g.function(rng.choice([2, 3, 4]), rng.choice([4, 6, 8]))
         home = rng.choice(order)
+        base_frags[b] = frag
+        if doc_p and side.random() < doc_p:
+            frag["doc"] = "Handle case %d of the batch." % b
         place(frag, home, "base", b)
         for _ in range(rng.randint(1, 2)):
             where = rng.choice(PLACES)
@@ -214,6 +258,22 @@ def gen_project(rng, n_bases=3, heavy_noise_p=0.25, max_items=9, twins_p=0.5):
             items.append({"name": name, "path": path, "relation": "twin", "base": -2, "kind": "def", "start": len(files[path]) + 3,
                           "twin_kinds": list(kinds), "variant": v})
             files[path] += lines + ["", ""]
+    # ---- extras (side generator only)
+    gs = FragGen(side)
+    if force_wrap or (wrap_p and side.random() < wrap_p):
+        # a small function (two fragments: the def and its loop) and a verbatim copy of it nested in a compound statement
+        wrap = force_wrap or side.choice(sorted(WRAPS))
+        v = lambda: side.randrange(len(VARS))
+        body = [("assign", v(), gs.expr()), ("assign", v(), gs.expr()), ("for", v(), gs.expr(1), [("assign", v(), gs.expr()), ("callst", "log", gs.expr()), ("assign", v(), gs.expr())]),
+                ("assign", v(), gs.expr()), ("callst", "emit", gs.expr()), ("assign", v(), gs.expr()), ("ret", gs.expr())]
+        wf = {"kind": "def", "params": 2, "body": body}
+        b = max(list(base_frags) + [0]) + 1
+        home = side.choice(order)
+        place(wf, home, "base", b, noise_rng=side)
+        place(wf, side.choice([p for p in order if p != home]), "verbatim", b, wrap=wrap, noise_rng=side, noise_p=side.choice([0.0, 0.15, 0.3]))
+    for b, frag in sorted(base_frags.items()):
+        if frag.get("doc") and frag["kind"] == "def" and side.random() < docedit_p:
+            place(dict(frag, doc="Process entry %d; see the manual." % b), side.choice(order), "docedit", b, noise_rng=side)
     texts = {p: "\n".join(["import os", ""] + ls) + "\n" for p, ls in files.items() if ls}
     return texts, items
 
